@@ -113,11 +113,15 @@ func c17CheckAlphabet(r *obs.Run, name string, a alphabet.Alphabet, def string, 
 	// AllValid on random slices
 	for k := 0; k < 6; k++ {
 		n := r.Rng.Intn(12)
+		if k == 0 && r.Rng.Intn(3) == 0 { // long enough for any block-wise scan: the first invalid letter may lie far in
+			n = 60 + r.Rng.Intn(200)
+		}
+		validRun := n > 50 && r.Rng.Intn(2) == 0 // mostly valid letters, so that the first invalid one comes late
 		ls := make([]alphabet.Letter, n)
 		qls := make([]alphabet.QLetter, n)
 		first := -1
 		for i := range ls {
-			if r.Rng.Intn(4) == 0 || len(def) == 0 {
+			if (r.Rng.Intn(4) == 0 && !(validRun && r.Rng.Intn(40) != 0)) || len(def) == 0 {
 				ls[i] = alphabet.Letter(r.Rng.Intn(256))
 			} else {
 				ls[i] = alphabet.Letter(def[r.Rng.Intn(len(def))])
